@@ -837,7 +837,7 @@ func calleeName(info *types.Info, call *ast.CallExpr) string {
 func (c *Ctx) errorsGate(instance string, f *Func, what string, effect func(Point, ast.Node) bool, tolerated func(Site) string) int {
 	c.touch(f)
 	g := f.Graph()
-	tested, _ := f.errCalls()
+	tested, untested := f.errCalls()
 	n := 0
 	ord := map[string]int{}
 	for _, s := range tested {
@@ -846,6 +846,9 @@ func (c *Ctx) errorsGate(instance string, f *Func, what string, effect func(Poin
 		inst := fmt.Sprintf("%s: %s #%d", instance, name, ord[name])
 		nilE, _, _, _ := OutcomeEdges(s)
 		again := atSite(s)
+		if pt, _ := g.Reach(s.After(), Cut{}, effect); pt == nil {
+			continue // the effect does not follow this call at all
+		}
 		pt, path := g.Reach(s.After(), Cut{Edges: nilE, Stop: func(p Point, nd ast.Node) bool { return again(p, nd) }}, effect)
 		if pt == nil {
 			n++
@@ -861,8 +864,70 @@ func (c *Ctx) errorsGate(instance string, f *Func, what string, effect func(Poin
 		c.Bad(inst, s.Pos(), fmt.Sprintf("%s: in %s, after %s fails control can still reach %s (path %s): the error is swallowed",
 			what, f.Name, name, nodeStr(pt.B.Nodes[pt.I]), g.describePath(path)))
 	}
+	for _, s := range untested {
+		if _, isDefer := s.Node.(*ast.DeferStmt); isDefer {
+			continue // runs after the effect
+		}
+		if pt, _ := g.Reach(s.After(), Cut{}, effect); pt == nil {
+			continue
+		}
+		name := calleeName(f.Info(), s.real())
+		ord[name]++
+		inst := fmt.Sprintf("%s: %s #%d", instance, name, ord[name])
+		if nilE := inlineNilEdges(g, s); len(nilE) > 0 {
+			// `if call(...) != nil {` : the result is tested in place
+			if pt, path := g.Reach(s.After(), Cut{Edges: nilE}, effect); pt != nil {
+				if why := tolerated(s); why != "" {
+					c.add(Result{Instance: inst, Verdict: Discharged, Sites: []string{s.Pos()}, Detail: "tolerated fall-through: " + why})
+					continue
+				}
+				c.Bad(inst, s.Pos(), fmt.Sprintf("%s: in %s, after %s fails control can still reach %s (path %s): the error is swallowed",
+					what, f.Name, name, nodeStr(pt.B.Nodes[pt.I]), g.describePath(path)))
+				continue
+			}
+			n++
+			c.add(Result{Instance: inst, Verdict: Discharged, Sites: []string{s.Pos()}, Evals: 1,
+				Detail:    fmt.Sprintf("%s: with the nil-error edges of %s cut, the protected effect is unreachable from the call", what, name),
+				Witnesses: f.WitEdges(nilE)})
+			continue
+		}
+		if ok, how := errDiscipline(s); !ok {
+			if why := tolerated(s); why != "" {
+				c.add(Result{Instance: inst, Verdict: Discharged, Sites: []string{s.Pos()}, Detail: "tolerated fall-through: " + why})
+				continue
+			}
+			c.Bad(inst, s.Pos(), fmt.Sprintf("%s: in %s the error of %s is dropped before %s (%s)", what, f.Name, name, "the protected effect", how))
+		}
+	}
 	if len(tested) == 0 {
 		c.Unk(instance, fmt.Sprintf("%s: no tested error-returning call found in %s", what, f.Name))
 	}
 	return n
+}
+
+// inlineNilEdges returns, for a call used directly as an operand of a nil
+// comparison in a branch condition (`if f(x) != nil {`), the edges on which
+// its result is known to be nil.
+func inlineNilEdges(g *Graph, s Site) map[Edge]bool {
+	info := s.F.Info()
+	call := s.real()
+	return g.EdgesImplying(func(a Atom) bool {
+		be, ok := ast.Unparen(a.E).(*ast.BinaryExpr)
+		if !ok || (be.Op != token.EQL && be.Op != token.NEQ) {
+			return false
+		}
+		var other ast.Expr
+		switch {
+		case ast.Unparen(be.X) == call:
+			other = be.Y
+		case ast.Unparen(be.Y) == call:
+			other = be.X
+		default:
+			return false
+		}
+		if !isNilIdent(info, other) {
+			return false
+		}
+		return (be.Op == token.EQL) == a.Val
+	})
 }
